@@ -186,11 +186,14 @@ pub fn run_atomic(tok: &[&str]) -> String {
         _ => return "bad-case".into(),
     };
     let flags: Option<&str> = tok.get(6).copied();
-    if tok.len() > 7 || flags.map_or(false, |f| f.is_empty() || f.chars().any(|c| c != 'd' && c != 'w')) {
+    if tok.len() > 7 || flags.map_or(false, |f| f.is_empty() || f.chars().any(|c| c != 'd' && c != 'w' && c != 'a')) {
         return "bad-case".into();
     }
     let decode = flags.map_or(false, |f| f.contains('d'));
     let writers = flags.map_or(false, |f| f.contains('w'));
+    // `a`: the block exists in all four tables, every transaction sets all four to one common value
+    // (bits: its parity) and the reads rotate over the four read functions
+    let all = flags.map_or(false, |f| f.contains('a'));
     let paced = flags.is_some();
     let w = world();
     *WMODE.lock().unwrap() = WMode::Apply;
@@ -205,6 +208,18 @@ pub fn run_atomic(tok: &[&str]) -> String {
         ffi::rodbus_database_delete_holding_register(db, CLIENT_REG);
         for i in 0..n {
             ffi::rodbus_database_add_holding_register(db, i, 0);
+        }
+        for i in 0..125u16 {
+            ffi::rodbus_database_delete_coil(db, i);
+            ffi::rodbus_database_delete_discrete_input(db, i);
+            ffi::rodbus_database_delete_input_register(db, i);
+        }
+        if all {
+            for i in 0..n {
+                ffi::rodbus_database_add_coil(db, i, false);
+                ffi::rodbus_database_add_discrete_input(db, i, false);
+                ffi::rodbus_database_add_input_register(db, i, 0);
+            }
         }
         if writers {
             for i in 0..threads as u16 {
@@ -244,6 +259,11 @@ pub fn run_atomic(tok: &[&str]) -> String {
                         database_callback(move |db| {
                             for i in 0..n {
                                 ffi::rodbus_database_update_holding_register(db, i, value);
+                                if all {
+                                    ffi::rodbus_database_update_input_register(db, i, value);
+                                    ffi::rodbus_database_update_coil(db, i, value & 1 == 1);
+                                    ffi::rodbus_database_update_discrete_input(db, i, value & 1 == 1);
+                                }
                                 if i % 16 == 0 {
                                     std::thread::yield_now();
                                 }
@@ -328,13 +348,18 @@ pub fn run_atomic(tok: &[&str]) -> String {
             break;
         }
         reads_done += 1;
-        let s = client_read(2, 0, n, UNIT_ATOMIC);
-        let whole = match s.strip_prefix("g0:") {
-            Some(vals) => {
+        let table = if all { [2u8, 3, 0, 1][(r % 4) as usize] } else { 2 };
+        let s = client_read(table, 0, n, UNIT_ATOMIC);
+        let whole = match (s.strip_prefix("g0:"), s.strip_prefix("b0:")) {
+            (Some(vals), _) => {
                 let vs: Vec<&str> = vals.split('/').collect();
                 vs.len() == n as usize && vs.iter().all(|v| *v == vs[0])
             }
-            None => false,
+            (_, Some(bits)) => {
+                let b = bits.as_bytes();
+                b.len() == n as usize && b.iter().all(|c| *c == b[0])
+            }
+            _ => false,
         };
         if !whole {
             ntorn += 1;
